@@ -10,6 +10,7 @@ the database in a scripted order:
   D  a worker reports the completion of some job twice / late (duplicate of the last report)
   F  fault: the instance with most running jobs is deactivated (real Instance.deactivate) and replaced by a fresh active one
   C<g>  the client cancels job group g (real cancel_job_group_in_db)
+  P  a scheduler pass (as S) during which the first instance a job is POSTed to is preempted while the request is in flight
   X  a second attempt id of a Running job reports job_started from another instance (real mark_job_started): an orphan attempt for loop O
   L  late canceller message: real driver.job.unschedule_job for the attempt whose completion was reported last
 
@@ -73,6 +74,7 @@ class Actors:
         self.next_inst = 50
         self.last_complete: Optional[Tuple] = None
         self.n_orphans = 0
+        self.preempted_in_flight = 0
         self.errors: List[str] = []
 
     def view(self) -> View:
@@ -132,6 +134,31 @@ class Actors:
                 w.apply(f'activate {self.next_inst}')
         elif k == 'C':
             w.apply(f'cancel {a[1:]}')
+        elif k == 'P':
+            # one scheduler pass during which the instance the job is being POSTed to is preempted: driver.job.schedule_job has passed its
+            # `assert instance.state == 'active'`, the worker request is in flight, the instance is deactivated (real Instance.deactivate),
+            # then the real code goes on to CALL schedule_job
+            session = w.app['client_session']
+            fired = []
+
+            async def preempt(name, a, kw):
+                if name != 'post' or fired or not a or '/jobs/create' not in str(a[0]):
+                    return
+                for inst in w.instances.values():
+                    if inst.state == 'active' and f'//{inst.ip_address}:' in str(a[0]):
+                        fired.append(inst.name)
+                        await inst.deactivate('preempted', self.ts)
+                        return
+            session.hook = preempt
+            try:
+                w.run(self._safe('scheduler', self.scheduler.schedule_loop_body()))
+            finally:
+                session.hook = None
+            if fired:
+                self.preempted_in_flight += 1
+                self.next_inst += 1
+                w.apply(f'newInstance {self.next_inst} 4000 1')
+                w.apply(f'activate {self.next_inst}')
         elif k == 'X':
             # a second attempt of a Running job reports job_started (schedule_job posted the job to a worker, its procedure call was lost and
             # the job was scheduled again): the real mark_job_started records it as a non-current attempt = an orphan for loop O
